@@ -217,6 +217,27 @@ def build() -> Check:
                 bad.append(("a suspension is recorded although the suspend decision said no", t))
             if done_set and not susp:
                 bad.append(("the waiting call is released although the policy is undecided and nothing suspends", t))
+    # every way a branch can end is booked on the right counter and branch state
+    want = {"return": ("complete", "complete_task"), "Exception*": ("fail", "fail_task"),
+            "SuspendExecution": ("suspend", None), "TimedSuspendExecution": ("suspend_with_timeout", None)}
+    badb = []
+    for t in dtr:
+        res = [e for e in t.events if e.kind == "RESULT"]
+        oc = res[0].data["outcome"] if res else "cancelled"
+        if oc not in want or t.outcome == "raise":
+            continue
+        st_calls = [e.data["method"] for e in t.events if e.kind == "BRANCH"]
+        cnt_calls = [e.data["method"] for e in t.events if e.kind == "COUNTER"]
+        ws, wc = want[oc]
+        if st_calls[:1] != [ws]:
+            badb.append((f"a branch ending with {oc} is booked as {st_calls[:1]} (expected {ws})", t))
+        if cnt_calls != ([wc] if wc else []):
+            badb.append((f"a branch ending with {oc} updates the counters via {cnt_calls} (expected {[wc] if wc else []})", t))
+        if oc == "return":
+            e0 = next((e for e in t.events if e.kind == "BRANCH"), None)
+            if e0 is None or e0.data["args"][:1] != ["branch_result"]:
+                badb.append(("the branch's result is not what is stored for it", t))
+    ck.ob("R1.branch-outcome-bookkeeping", fn_construct(fn_dc), not badb, badb[0][0] if badb else "")
     ck.floor("branch_end_decisions", n_dec, 6)
     ck.ob("R5.policy-decision-before-suspension", fn_construct(fn_dc), not bad,
           (bad[0][0] + " | " + "; ".join(f"{k}->{v}" for k, v in bad[0][1].pc)) if bad else f"{n_dec} branch-end paths")
